@@ -529,6 +529,27 @@ func TestReplay(t *testing.T) {
 	if path == "" {
 		t.Skip("no VERIF_REPLAY")
 	}
+	var kind struct {
+		Model   bool `json:"model"`
+		Factory bool `json:"factory"`
+	}
+	if _, err := vkit.LoadReplay(path, &kind); err != nil {
+		t.Fatal(err)
+	}
+	if kind.Factory {
+		var fc FCase
+		vkit.LoadReplay(path, &fc)
+		if f := runFactory(t, fc); f != nil {
+			vkit.Violation(t, f.key, f.detail, fc)
+		}
+		return
+	}
+	if kind.Model {
+		var mc MCase
+		vkit.LoadReplay(path, &mc)
+		reportModel(t, mc, runModel(mc))
+		return
+	}
 	var c Case
 	if _, err := vkit.LoadReplay(path, &c); err != nil {
 		t.Fatal(err)
